@@ -20,8 +20,8 @@ LEAF_ATTRS = [dict(), dict(valid_type=int), dict(required=False), dict(default=3
 NS_PROPS = ['dynamic', 'required', 'valid_type', 'help', 'populate_defaults']
 
 
-def gen_tree(rng, depth):
-    n = rng.randint(1, 4)
+def gen_tree(rng, depth, top=True):
+    n = rng.randint(1, 4) if top else rng.choice([0, 1, 1, 2, 2, 3])     # nested namespaces may be empty (purely dynamic)
     names = rng.sample(NAMES, n)
     out = []
     for nm in names:
@@ -35,7 +35,7 @@ def gen_tree(rng, depth):
                 props['help'] = 'ns-' + nm
             if rng.random() < 0.3:
                 props['populate_defaults'] = False
-            out.append((nm, props, gen_tree(rng, depth - 1)))
+            out.append((nm, props, gen_tree(rng, depth - 1, top=False)))
         else:
             out.append((nm, rng.randrange(len(LEAF_ATTRS)), None))
     return out
@@ -289,7 +289,9 @@ def model_line(case):
 def corpus():
     """witnesses of the repaired defect F13 (string-prefix include match) and side-condition corners"""
     t1 = [('a', {}, [('x', 0, None)]), ('ab', {}, [('x', 0, None), ('y', 1, None)]), ('abc', 2, None)]
-    return [dict(tree=t1, ex=None, inc=['ab.x'], ns=None, opts=None, top={}, kind='inputs'),
+    t2 = [('a', {'dynamic': True}, []), ('b', 0, None)]
+    return [dict(tree=t2, ex=None, inc=None, ns='tgt', opts=None, top={}, kind='inputs'),
+            dict(tree=t1, ex=None, inc=['ab.x'], ns=None, opts=None, top={}, kind='inputs'),
             dict(tree=t1, ex=None, inc=['abc'], ns='tgt', opts=None, top={}, kind='outputs'),
             dict(tree=t1, ex=['a'], inc=None, ns=None, opts={'dynamic': True}, top={'help': 'top'}, kind='inputs'),
             dict(tree=t1, ex=['a.x'], inc=['ab'], ns=None, opts=None, top={}, kind='inputs'),
